@@ -42,11 +42,16 @@ def valid(prog):
 
 
 def programs(depth):
+    """all valid compositions up to the depth bound; each also with the sub-stepping wrapper RepeatedStepper(stepper, 2) ("S2") in place of the bare
+    stepper at the innermost position (a Fourier-space scan composition whose eager meaning is two applications of the stepper)"""
     out = []
     for d in range(1, depth + 1):
         for prog in itertools.product(OPS, repeat=d):
             if valid(prog):
                 out.append(prog)
+                if d < depth or d == 1:
+                    out.append(prog + ("S2",))
+    out.append(("S2",))
     return out
 
 
@@ -75,6 +80,9 @@ def build_impl(prog, f):
     import exponax as ex
 
     g = f
+    if prog and prog[-1] == "S2":
+        g = ex.RepeatedStepper(f, 2)
+        prog = prog[:-1]
     for op in reversed(prog):
         if op == "J":
             g = eqx.filter_jit(g)
@@ -93,6 +101,8 @@ def interp(prog, f, x):
 
     if not prog:
         return f(x)
+    if prog == ("S2",):
+        return f(f(x))
     op, rest = prog[0], prog[1:]
     if op == "J":
         return interp(rest, f, x)
@@ -127,6 +137,8 @@ def unit_prog(u, rec):
     rec.dim("programs", len(progs))
     for prog in progs:
         nV = sum(1 for o in prog if o == "V")
+        if prog[-1] == "S2" and not hasattr(st, "step_fourier"):
+            continue
         # input: one state with nV leading batch axes of size 3 (different members)
         x = np.asarray(states[0])
         for lvl in range(nV):
@@ -160,7 +172,7 @@ def unit_prog(u, rec):
             b2 = np.moveaxis(got2, lead_out, 0)
             rec.count(transitions=1)
             rec.check(np.array_equal(a[1:], b2[1:]), f"C06/batch_independence/{e.name}", "perturbing one batch member changes another member's result", program=list(prog))
-            if a.shape[0] and float(np.max(np.abs(a[0] - b2[0]))) == 0.0 and not all(o in ("P0", "R0", "J", "V") for o in prog):
+            if a.shape[0] and float(np.max(np.abs(a[0] - b2[0]))) == 0.0 and not all(o in ("P0", "R0", "J", "V") for o in prog) and not any(o in ("P0", "R0") for o in prog):
                 rec.check(False, f"C06/batch_member_ignored/{e.name}", "the perturbed member's own result did not change", program=list(prog))
     rec.sample({"entry": e.name, "D": D, "N": N, "programs": len(progs), "examples": [list(p) for p in progs[:: max(1, len(progs) // 5)][:5]]})
 
